@@ -551,14 +551,15 @@ func c11Relax(p *Prog, r *Report) {
 		}
 		v := st.Val
 		if bo, ok := v.(*ssa.BinOp); ok && bo.Op == token.ADD {
-			if _, isC := bo.X.(*ssa.Const); isC {
+			// "^"+best / "~"+best, the operator written as a constant or chosen first into a local
+			if isConstOrPhiOfConsts(bo.X) {
 				v = bo.Y
 			}
 		}
 		chosen = append(chosen, v)
 		sinkBlk = append(sinkBlk, b)
 	})
-	r.Instances("D1-level-guard", "stores to the relaxed requirement's version", len(chosen), 2)
+	r.Instances("D1-level-guard", "stores to the relaxed requirement's version", len(chosen), 1)
 	checkedIdx := map[ssa.Value]bool{} // candidate indices that passed a level check
 	ncand := 0
 	seenLeaf := map[ssa.Value]bool{}
@@ -724,6 +725,21 @@ func c11Relax(p *Prog, r *Report) {
 		}
 		r.Check(okG, "D4-plumbing", psite+":only-when-ok", p.Pos(c.Pos()), "patched only when Relax reported success", "relax.patchVulns patches the requirement even when Relax refused (returned false)")
 	})
+}
+
+func isConstOrPhiOfConsts(v ssa.Value) bool {
+	switch x := v.(type) {
+	case *ssa.Const:
+		return true
+	case *ssa.Phi:
+		for _, e := range x.Edges {
+			if _, isC := e.(*ssa.Const); !isC {
+				return false
+			}
+		}
+		return len(x.Edges) > 0
+	}
+	return false
 }
 
 // isTailScan: the cell is the current element of a full scan over xs[k+1:] — the range form of a
